@@ -19,13 +19,15 @@ RAR = "jinns.solver._rar"
 S_T, S_X, SEL_T, SEL_X = K('S_t'), K('S_x'), K('sel_t'), K('sel_x')
 
 
-def stub_time(key, n=None):
+def stub_time(key, sample_size=None):
+    n = sample_size
     ax = str(lift(n)) if n is not None else 'nt'
     return AT((ax,), np.array(Poly.atom(('T', frozenset({ax}))), dtype=object))
 
 
 def make_stub_omega(d):
-    def stub_omega(keys, n=None):
+    def stub_omega(keys, sample_size=None):
+        n = sample_size
         ax = str(lift(n)) if n is not None else 'n'
         return AT((ax, d), np.array([Poly.atom(('X', j, frozenset({ax}))) for j in range(d)], dtype=object))
     return stub_omega
